@@ -9,9 +9,10 @@ export PYTHONPATH=/repo/src PYTHONHASHSEED=0 PYTHONWARNINGS=ignore
 /venv/bin/python harness/translate_history.py > /dev/null
 /venv/bin/python - <<'PY' || true
 import sys; sys.path.insert(0,'/verif/harness')
-import translate_user_actions, translate_name_mapping, translate_utils, translate_numpy_utils
+import translate_user_actions, translate_name_mapping, translate_utils, translate_numpy_utils, translate_toggle, translate_candgraph, translate_core
 translate_user_actions.regenerate(); translate_name_mapping.regenerate(); translate_utils.regenerate()
 translate_numpy_utils.regenerate_labels(); translate_numpy_utils.regenerate_relabel()
+translate_toggle.regenerate(); translate_candgraph.regenerate(); translate_core.regenerate()
 PY
 harness/gen_coqproject.sh
 # -k: a proof file that no longer compiles must not stop the rest from building; the check of every
